@@ -5,7 +5,8 @@ ALLOWED_AXIOMS = set()   # goal: every property theorem is closed under the glob
 
 PROPS = {
     "C09": {
-        "theorems": ["C09_schedule_independent", "C09_stream_total"],
+        "theorems": ["C09_schedule_independent", "C09_stream_total", "C09_boundary_rule", "C09_tiling", "C09_sizes",
+                     "C09_literal_rule_outside_known_class", "C09_literal_rule_refuted"],
         "suites": ["hash", "stream", "exh", "oneshot"],
         "extra_case_files": {"stream": ["stream-spec"]},
         "rule": "cases: per-byte hash sums (hash), small streams under scripted read schedules run through the "
@@ -67,6 +68,22 @@ for _pid, _text, _also in [
         "suites": ["planner", "clone"], "also": _also, "rule": _CLONE_RULE, "assumes": _CLONE_ASSUMES,
         "trusted_base": [], "level_text": _text, "level_note": _CLONE_NOTE,
     }
+
+PROPS["C10"] = {
+    "theorems": ["C10_resync", "C10_resync_streams"],
+    "suites": ["resync", "hash"],
+    "rule": "cases: pairs of streams P1+S, P2+S (prefixes: empty, shorter than the window, zero runs, random, constant runs "
+            "straddling the splice; FixedSize with aligned prefixes) chunked by the real chunker, boundaries compared after the "
+            "first common boundary >= one window into S; both streams also run through the model automaton; per-byte hash "
+            "sums of both hashers compared with the model and with independent pure window hashes. non-trivial = a common "
+            "boundary exists",
+    "assumes": PROPS["C09"]["assumes"],
+    "trusted_base": [],
+    "level_text": "Theorem C10_resync (Coq): on the model of the chunker (automaton with carried hasher state, proved equal to the "
+                  "stateless specification using the purity theorems of both rolling hashes) two streams with a common suffix and "
+                  "a common boundary at least one window into it have identical later chunks; also under any read schedules.",
+    "level_note": PROPS["C09"]["level_note"],
+}
 
 HOOK_COMMITS = ["8bc8c25"]
 
